@@ -97,7 +97,15 @@ func (g *G) StringLit() string {
 }
 
 func (g *G) strBody() string {
-	switch g.t.Draw(14) {
+	switch g.t.Draw(18) {
+	case 13:
+		return "caf\uFFFD au lait" // a validly encoded replacement character
+	case 14:
+		return "\U0001F600 e\u0301 \uFEFFx \u2028\u00a0y" // astral, combining, BOM, separators
+	case 15:
+		return "caf\xe9 \xff\xfe" // not UTF-8 (Latin-1 bytes): the lexer reads replacement characters
+	case 16:
+		return "\u00e9" + strings.Repeat("\u3042", 1+g.t.Draw(40)) + "\U00010348"
 	case 0:
 		return "s"
 	case 1:
